@@ -33,7 +33,10 @@ Definition pre_ops (hs_called est_x : bool) : list op :=
    7 close on a socket that does not take writes (the close_notify write runs into its limit),
    8 / 9 / 10 the state machine fails on a received post-handshake message (the read loop is
    released), then the peer's close_notify / a fatal alert is read / Close() is called,
-   11 Close() while the state machine is still inside the blocked ACK write (read loop parked) *)
+   11 Close() while the state machine is still inside the blocked ACK write (read loop parked),
+   12 the peer's close_notify is read while the transport refuses the write of the reply (write fault
+   leg; Close() with a refused close_notify write is event 7 with one closer),
+   14 the state machine fails on a received post-handshake message (ACK refused), then 12 *)
 Definition event_ops (ev : N) (closers : nat) : list op :=
   match ev with
   | 0 => repeat SpawnClose closers
@@ -47,6 +50,8 @@ Definition event_ops (ev : N) (closers : nat) : list op :=
   | 9 => [Env (ERecvHs true); StepReader; Env ERecvFatal]
   | 10 => [Env (ERecvHs true); StepReader] ++ repeat SpawnClose closers
   | 11 => [Env EWrBlock; Env (ERecvHs true)] ++ repeat SpawnClose closers
+  | 12 => [Env ERecvCNF]
+  | 14 => [Env (ERecvHs true); StepReader; Env ERecvCNF]
   | _ => []
   end%N.
 
@@ -174,4 +179,16 @@ Example e2e_ok_close_during_negotiation_closed :
 Proof. vm_compute. reflexivity. Qed.
 Example e2e_ok_close_during_negotiation_rejects_transport_error :
   e2e_ok ((0, false, true, true, false, 1), (false, false), ([1], 7, 0, 0), (0, true), (1, 3, 0))%N = false.
+Proof. vm_compute. reflexivity. Qed.
+(* the peer's close_notify while the reply cannot be written: closed, no record, blocked Read = EOF, later
+   Write = ErrConnClosed, later Read = EOF; a connection that stays open with the transport's error handed
+   to Read (8) is rejected (seed C16g) *)
+Example e2e_ok_peer_close_reply_refused :
+  e2e_ok ((12, false, false, false, true, 0), (true, false), ([], 1, 2, 0), (0, true), (1, 3, 2))%N = true.
+Proof. vm_compute. reflexivity. Qed.
+Example e2e_ok_peer_close_reply_refused_rejects_open :
+  e2e_ok ((12, false, false, false, true, 0), (true, false), ([], 1, 8, 0), (0, false), (1, 1, 9))%N = false.
+Proof. vm_compute. reflexivity. Qed.
+Example e2e_ok_ack_and_reply_refused :
+  e2e_ok ((14, true, false, false, true, 0), (true, false), ([], 1, 2, 0), (0, true), (1, 3, 2))%N = true.
 Proof. vm_compute. reflexivity. Qed.
